@@ -21,21 +21,27 @@ META = {
                   "mouette/mesh/io/*.py and the save/load plumbing of mesh.py whose constants, tables and decision expressions are regenerated "
                   "from /repo on every run. FULL: round trip parse_f(print_f m) = vocab_f m for xyz, obj (both edge-export switches, "
                   "ignore_elements), off (faces of >=3 vertices), tet, Medit .mesh (per arity class: triangles, quads, hexahedra, tetrahedra; "
-                  "hard-edge-only export), geogram_ascii (vertices, edges, faces of any arity via facet_ptr, tetrahedra, cell adjacency, "
-                  "attributes of the five types on the seven containers: name, type, arity and, read densely, values); interoperability both "
-                  "ways with independent reference codecs (free-form token-stream readers) for xyz, obj, off, tet, Medit; kinds a format cannot "
-                  "express are absent; the loaded class is the one the content implies. PARTIAL: STL (binary32 triangle soup of triangle "
-                  "meshes through a reader of the binary layout; the importer is the third-party stl_reader, only compared per run; quads are "
-                  "written as two triangles). REFUTED (known finding): hexahedra cannot be saved to geogram_ascii. Interoperability of "
-                  "geogram_ascii with an independent count-driven reader/writer and with a file written by geogram itself is tested per run "
-                  "(kernel-checked against the model's parser), not proved. Bit-exactness of text coordinates rests on the hypothesis "
-                  "float('{}'.format(x)) == x, tested on every run (10^5 doubles in the thorough tier).",
+                  "hard-edge-only export), geogram_ascii (vertices, edges, faces of any arity via facet_ptr, cells of any arity via cell_ptr, "
+                  "cell adjacency of tetrahedral meshes, attributes of the five types on the seven containers: name, type, arity and, read "
+                  "densely, values); interoperability both ways with independent reference codecs (free-form token-stream readers) for xyz, "
+                  "obj, off, tet, Medit; kinds a format cannot express are absent; the loaded class is the one the content implies. "
+                  "PARTIAL: geogram_ascii interoperability (proved: an independent count-driven reader finds exactly the attribute sets and "
+                  "attributes mouette wrote with all their values; the converse - files of an independent geogram writer and a file written "
+                  "by geogram itself - is compared per run with the model's parser); STL (binary32 triangle soup of triangle meshes through a "
+                  "reader of the binary layout; the importer is the third-party stl_reader, only compared per run; quads are written as two "
+                  "triangles). REFUTED (known findings, witnesses replayed on every run): OBJ relative (negative) indices are misread; Medit "
+                  "sections whose count is on the keyword line are skipped; Medit Dimension 2 files get the reference label as z. The optional "
+                  "parts an independent writer may emit (OFF face colours / comments / counts on the OFF line, OBJ o g s usemtl mtllib vt vn "
+                  "statements, v/vt/vn index forms and polylines, Medit optional sections / labels / indentation, xyz count line and extra "
+                  "columns, blanks) are generated on every run, loaded by mouette, judged by the oracle and compared with the model's parser. "
+                  "Bit-exactness of text coordinates rests on the hypothesis float('{}'.format(x)) == x, tested on every run (10^5 doubles "
+                  "in the thorough tier).",
     "level_note": "Trusted: Coq kernel + vm_compute; the fail-closed translator vf/translate/c04.py (its output is exercised by the "
                   "correspondence); the harness (generators, tokeniser, driver canonicalisation: floats as bit patterns, a float text is "
                   "identified with the double it denotes); CPython/numpy float and complex text round trip (section hypotheses rf_pf, rc_pc); "
                   "struct.pack native 'f' = IEEE rounding to binary32 (coordinates beyond the binary32 range become +-inf in STL files); "
-                  "stl_reader; RawMeshData.prepare (C02's subject) builds the meshes that are saved; OBJ v/vt/vn forms, uv/normals attributes, "
-                  "xyz normals, ply and ASCII STL import are outside the model. A scalar attribute value equal to the type default (-0.0, "
+                  "stl_reader; RawMeshData.prepare (C02's subject) builds the meshes that are saved; the uv_coords / normals attributes OBJ and xyz "
+                  "imports create (and the IndexError of a dangling vt/vn reference), ply and ASCII STL import are outside the model. A scalar attribute value equal to the type default (-0.0, "
                   "0j with signed zeros) reads back as the default.",
 }
 
@@ -888,6 +894,46 @@ def geo_ref_read(text):
         return None
 
 
+def geo_ref_items(text):
+    """Python twin of GeoRef.ref_read_geo: the sets and attributes found by a count-driven pass, summarised; None if unreadable.
+    Names are kept as written (quoted)."""
+    lines = [ln.split("#")[0].strip() for ln in text.split("\n")]
+    if lines and lines[-1] == "":
+        lines.pop()
+    pos, sizes, out = 0, {}, []
+    try:
+        while pos < len(lines):
+            k = lines[pos]
+            if k == "[HEAD]":
+                if pos + 2 >= len(lines):
+                    return None
+                pos += 3
+            elif k == "[ATTS]":
+                s_, n = lines[pos + 1], int(lines[pos + 2])
+                if n < 0 or not INT_RE.match(lines[pos + 2]):
+                    return None
+                sizes[s_] = n
+                out.append([0, s_, "", "", n, 0])
+                pos += 3
+            elif k == "[ATTR]":
+                s_, nm, ty = lines[pos + 1], lines[pos + 2], lines[pos + 3]
+                if not INT_RE.match(lines[pos + 4]) or not INT_RE.match(lines[pos + 5]) or s_ not in sizes:
+                    return None
+                dim = int(lines[pos + 5])
+                if dim < 0:
+                    return None
+                cnt = sizes[s_] * dim
+                if len(lines) - (pos + 6) < cnt:
+                    return None
+                out.append([1, s_, nm, ty, dim, cnt])
+                pos += 6 + cnt
+            else:
+                return None
+        return out
+    except (IndexError, ValueError):
+        return None
+
+
 def oracle_geogram_interop(mi, adj, text, ignore):
     """the file mouette wrote, read by the independent reader"""
     g = geo_ref_read(text)
@@ -1383,6 +1429,7 @@ def run(ctx):
     extra_batches.append(("refvar", var_terms, "check_load", "(fmt * list zline * option zraw * option (option string))"))
 
     geo_jobs, geo_idx = [], []
+    gr_terms = []
     for idx, (job, r) in enumerate(zip(jobs, res)):
         if job["fmt"] != "geogram_ascii" or "mesh_in" not in r or not mesh_modelled(r["mesh_in"]):
             continue
@@ -1391,6 +1438,11 @@ def run(ctx):
             msg = oracle_geogram_interop(mi, r.get("adj"), r["file"]["text"], job.get("ignore"))
             if msg:
                 fails.append((idx, msg))
+            if printable(r["file"]["text"].replace("\n", " ")):
+                it = geo_ref_items(r["file"]["text"])
+                gr_terms.append("(%s, %s)" % (lines_term(tokenize_geogram(r["file"]["text"])),
+                                             "None" if it is None else "(Some [%s])" % "; ".join(
+                                                 "(%s, %s, %s, %s, %s, %s)" % (z(a), cstr(b_), cstr(c_), cstr(d_), z(e_), z(f_)) for a, b_, c_, d_, e_, f_ in it)))
         if job.get("ignore") is None and all(len(c) == 4 for c in (mi["C"] or [])) and mi.get("FC") in (None, [x for f in (mi["F"] or []) for x in f]):
             geo_jobs.append({"k": "load", "fmt": "geogram_ascii", "text": geo_ref_write(mi, r.get("adj"), comments=ctx.rng.random() < 0.7)})
             geo_idx.append(idx)
@@ -1416,6 +1468,7 @@ def run(ctx):
         if ot is not None and printable(j2["text"].replace("\n", " ")):
             geo_terms.append("(Fgeo, %s, %s, %s)" % (lines_term(tokenize_geogram(j2["text"])), ot, ct))
     extra_batches.append(("georef", geo_terms, "check_load", "(fmt * list zline * option zraw * option (option string))"))
+    extra_batches.append(("georead", gr_terms, "check_georead", "(list zline * option (list (Z * string * string * string * Z * Z)))"))
     rw_res = run_jobs(rw_jobs)
     for idx, j2, r2 in zip(rw_idx, rw_jobs, rw_res):
         fmt = jobs[idx]["fmt"]
